@@ -497,6 +497,38 @@ def check_shared_sphere(case, R):
     R.outcome(tuple(seq))
 
 
+TEMP_FRUSTA = [(0.5, 2.0), (2.0, 0.5), (1.0, 1.0), (0.25, 3.0), (1.5, 0.75), (3.0, 1.5)]  # (far radius, height) on a unit sphere
+
+
+def check_temporaries(case, R):
+    """One long-lived sphere combined with a sequence of SHORT-LIVED frusta (each built, used and dropped before the next is
+    built, as in a loop or a helper): every answer is the true volume of the frustum asked about, not of one seen before."""
+    from swcgeom.utils import VolFrustumCone, VolSphere
+
+    seq, op_first = list(case[1]), case[2]
+    R.state("temporaries", seq, op_first)
+    seed = dg("c13t", case)
+    c = OFFSETS[1]
+    u = ORIENT_T[12]
+    s = VolSphere(np.array(c), 1.0)
+
+    def ask(r2, h, op):
+        fr = VolFrustumCone(np.array(c), 1.0, _pt(c, u, h), r2)
+        return getattr(s, op)(fr).get_volume()  # the frustum and the composite die when this returns
+
+    ops = ("intersect", "union") if op_first == "intersect" else ("union", "intersect")
+    for pos, k in enumerate(seq):
+        r2, h = TEMP_FRUSTA[k]
+        for op in ops:
+            with _FastMC(), _Rng(FIXED[:4], seed):
+                ok, v = R.impl(f"sphere.{op}(temporary frustum)", ask, r2, h, op)
+            if ok:
+                want = G.vol_sphere_frustum(1.0, r2, h, "min" if op == "intersect" else "max")
+                _cmp(R, v, want, max(1.0, r2) ** 2 * max(h, 1.0), "volume:temporaries",
+                     lambda: f"call #{pos} ({op}) of frusta {[TEMP_FRUSTA[i] for i in seq]} on one sphere", f"volume:temporaries:{op}")
+    R.outcome(tuple(seq), op_first)
+
+
 # ------------------------------------------------------------------ spaces
 
 
@@ -581,6 +613,16 @@ def spaces(tier, seed):
                     for l in range(9):
                         yield ["shared", [i, j, l]]
 
+    def gen_temp():
+        k = len(TEMP_FRUSTA)
+        for first in ("intersect", "union"):
+            for i in range(k):
+                for j in range(k):
+                    yield ["temporaries", [i, j], first]
+                    if not quick or first == "intersect":
+                        for l in range(k):
+                            yield ["temporaries", [i, j, l], first]
+
     common = {"orientations": n_or, "centre_offsets": [OFFSETS[i] for i in offs], "size_scales": list(scales)}
     return [
         Space.of("sphere-and-cap", gen_sphere, check_sphere, bounds={"radii": [r * s for s in scales for r in rad], "cap_height_over_r": CAP_FRACS}),
@@ -595,6 +637,9 @@ def spaces(tier, seed):
         Space.of("query-histories", gen_hist, check_history,
                  bounds={"objects": len(QUERIES), "sequence_length": "2" if quick else "2 and 3", "rounds": 2,
                          "note": "all objects built first, queried in order, then all queried again under other rand answers"}),
+        Space.of("sphere-with-temporaries", gen_temp, check_temporaries,
+                 bounds={"frusta (far radius, height)": TEMP_FRUSTA, "sequence_length": "2 and 3", "operations": "intersect and union per frustum, either first",
+                         "note": "one sphere object; each frustum is built, used and dropped before the next one is built"}),
         Space.of("shared-sphere", gen_shared, check_shared_sphere,
                  bounds={"calls": 9, "sequence_length": "2" if quick else "2 and 3",
                          "note": "one sphere object used by two frusta and a second sphere; composites, own volume and cap interleaved"}),
